@@ -520,10 +520,77 @@ def stale_match_reelected(**kw):
     return sc.rec
 
 
+def stale_cursor(**kw):
+    """regression (fixed FX-C09-2): a snapshot transfer interrupted by a loss of leadership must not be continued
+    in the middle after re-election (the follower had meanwhile started to receive another leader's snapshot)"""
+    sc = Script(base_cfg([1, 2, 3], chunk=32, fallback=100, dump='file', journal='file'), **kw)
+    s, sim = sc.s, sc.sim
+
+    def trans(n):
+        return sim.nodes[n]._SyncObj__serializer._Serializer__transmissions
+
+    s.boot()
+    sc.elect(1)
+    sc.settle([1, 2], 2)
+    sc.isolate(3)
+    for _ in range(4):
+        s.submit(1, size=20)
+    sc.settle([1, 2], 4)
+    sc.rec.do(('compact', 1))
+    sc.settle([1, 2], 3)
+    sc.join(3)
+    for _ in range(5):
+        s.tick(1, 11, budget=2)        # the send loop is cut by the clock after two turns
+        sc.flush(1, 3)
+        sc.flush(3, 1)
+        sc.flush(1, 2)
+        sc.flush(2, 1)
+        if trans(1):
+            break
+    sc.elect(2, voters_for=[3])        # 2 takes over; 3 votes but does not get 2's entries yet
+    while sim.queue_len(2, 3):
+        sc.rec.do(('lose', 2, 3, 100))
+    sc.flush(2, 1)
+    sc.flush(1, 2)
+    for _ in range(2):
+        s.submit(2, size=20)
+    for _ in range(4):
+        s.tick(2, 11)
+        sc.rec.do(('lose', 2, 3, 100))
+        sc.flush(2, 1)
+        sc.flush(1, 2)
+    sc.rec.do(('compact', 2))
+    for _ in range(3):
+        s.tick(2, 11)
+        sc.rec.do(('lose', 2, 3, 100))
+        sc.flush(2, 1)
+        sc.flush(1, 2)
+    for _ in range(5):
+        s.tick(2, 11, budget=2)
+        sc.flush(2, 3)
+        sc.flush(3, 2)
+        sc.flush(2, 1)
+        sc.flush(1, 2)
+        if trans(2):
+            break
+    sc.elect(1, voters_for=[3, 2])     # 1 again
+    sc.flush(1, 3)
+    sc.flush(3, 1)
+    sc.flush(1, 2)
+    sc.flush(2, 1)
+    for _ in range(8):
+        s.tick(1, 11)
+        sc.flush(1, 3)
+        sc.flush(3, 1)
+    sc.settle([1, 2, 3], 6)
+    return sc.rec
+
+
 SCENARIOS = {'d7': d7, 'd8': d8, 'd17': d17, 'd16': d16, 'd1': d1, 'd20': d20,
              'snapshot_catchup': snapshot_catchup, 'forwarded': forwarded,
              'restart_double_vote': restart_double_vote, 'd18': d18, 'd10': d10, 'd19': d19, 'd6': d6,
-             'ser_fork': ser_fork, 'ser_custom': ser_custom, 'fig8': fig8, 'stale_match_reelected': stale_match_reelected}
+             'ser_fork': ser_fork, 'ser_custom': ser_custom, 'fig8': fig8, 'stale_match_reelected': stale_match_reelected,
+             'stale_cursor': stale_cursor}
 NAMES = sorted(SCENARIOS)
 
 
